@@ -8,10 +8,75 @@ NAMES = [
 ]
 
 
+def large_len_corpus():
+    """BOUNDED stand-in for the large configurations (LEN = 33, 100): find(x) against a linear-scan oracle for every
+    edge, its floating-point neighbours, midpoints, +-inf, NaN and -0.0 on uniform, non-uniform, infinite-edged and
+    repeated-edge histograms.  The bit-precise Kani harness is complete per LEN but needs > 10 min already for LEN = 40."""
+    import math
+    import replay
+    from common import Obligation, DISCHARGED, REFUTED, UNDECIDED
+    inf = float("inf")
+    obs = []
+    for ty, L in (("H33", 33), ("H100", 100)):
+        edge_sets = [
+            [float(i) for i in range(L + 1)],
+            [float(i) for i in range(L)] + [float(L - 1) + 100.0],
+            [-inf] + [float(i) for i in range(1, L)] + [inf],
+            [0.25 * i * i for i in range(L + 1)],
+            [float(i // 2) for i in range(L + 1)],
+            [i * (1000.0 / L) for i in range(L + 1)],
+        ]
+        progs, metas = [], []
+        for edges in edge_sets:
+            xs = set()
+            for e in edges:
+                if e == e and abs(e) != inf:
+                    xs.update([e, math.nextafter(e, inf), math.nextafter(e, -inf)])
+            for a, b in zip(edges, edges[1:]):
+                if abs(a) != inf and abs(b) != inf:
+                    xs.add(0.5 * (a + b))
+            xs = sorted(xs) + [inf, -inf, -0.0, float("nan")]
+            progs.append({"type": ty, "ctor": ["from_ranges", edges], "ops": [], "observe": [["find", x] for x in xs]})
+            metas.append((edges, xs))
+        name = "C06.hist[%d].find.linear_scan_corpus" % L
+        fn = F + "::define_histogram!(_, %d)::find" % L
+        bound = "%d edge vectors x every edge, its neighbours, midpoints, +-inf, NaN, -0.0 (%d samples)" % (len(edge_sets), sum(len(m[1]) for m in metas))
+        results = replay.run_programs(progs, timeout=900)
+        verdict = None
+        for pg, res, (edges, xs) in zip(progs, results, metas):
+            if res.get("error"):
+                verdict = Obligation(name, fn, "replay+oracle", UNDECIDED, 0.0, "replay failed: " + res["error"], bounded=bound, kind="bounded")
+                break
+            if res["panic"]:
+                verdict = Obligation(name, fn, "replay+oracle", REFUTED, 0.0, "panic: " + res["panic"], cex={"class": {"corpus": True}, "program": pg}, bounded=bound, kind="bounded")
+                break
+            for x in xs:
+                key = "find(%s)" % x
+                got = res["obs"].get(key)
+                exp = None
+                if x == x and edges[0] <= x < edges[-1]:
+                    for i in range(L):
+                        if edges[i] <= x < edges[i + 1]:
+                            exp = i
+                            break
+                if got != exp:
+                    small = {"type": ty, "ctor": ["from_ranges", edges], "ops": [], "observe": [["find", x]]}
+                    verdict = Obligation(name, fn, "replay+oracle", REFUTED, 0.0, "find(%r) = %r, the bin containing it is %r" % (x, got, exp),
+                                         cex={"class": {"corpus": True}, "program": small, "statistic": key, "expected": repr(exp), "actual": repr(got)},
+                                         bounded=bound, kind="bounded")
+                    break
+            if verdict:
+                break
+        obs.append(verdict or Obligation(name, fn, "replay+oracle", DISCHARGED, 0.0, "all samples in the bin the linear scan finds", bounded=bound, kind="bounded",
+                                         text="find vs linear scan, LEN = %d" % L))
+    return obs
+
+
 def run(tier, seed):
     lens = [1, 2, 3, 4] if tier == "quick" else [1, 2, 3, 4, 10]
     job = hist_job("C06", lens, NAMES, unwind=14)
     obs = job.run()
+    obs += large_len_corpus()
     if tier == "quick":
         # the exported Histogram10 (the crate's own instantiation): find/add against the bin contract as well
         obs += hist_job("C06", [10], NAMES[:1], unwind=14, timeout=900, harness_timeout=600).run()
@@ -28,6 +93,7 @@ def run(tier, seed):
                                      "Histogram::range_min", "Histogram::range_max"],
         "source_files": [F, FC, "src/lib.rs"],
         "assumptions": [
+            "LEN = 33 and LEN = 100: BOUNDED linear-scan corpus only in the quick tier (find.linear_scan_corpus, listed under `bounded`); the complete Kani proof for LEN = 100 is in the thorough tier",
             "find.iff_bin_unique additionally for LEN = 10 (average::Histogram10) in the quick tier",
             "configurations: LEN in %s (complete per LEN: edges are LEN+1 fully symbolic f64 constrained only by validity, "
             "x is every f64); other LEN are not covered by this run" % lens,
@@ -43,6 +109,10 @@ def run(tier, seed):
 
 
 def confirm(ob):
+    c = ob.cex or {}
+    if c.get("program") and c.get("statistic"):
+        return {"program": c["program"], "expected": {c["statistic"]: c.get("expected")}, "actual": {c["statistic"]: c.get("actual")},
+                "confirmed_on_real_code": True}
     import replay
     from kani_engine import playback_floats
     import re
